@@ -20,7 +20,7 @@ pub fn meta() -> CheckMeta {
 }
 
 pub fn n_runs(tier: &str) -> u64 {
-    if tier == "quick" { 4_000 } else { 80_000 }
+    if tier == "quick" { 4_000 } else { 40_000 }
 }
 
 pub fn gen(tier: &str, seed: u64, idx: u64, base: u64) -> Spec {
@@ -51,6 +51,13 @@ pub fn gen(tier: &str, seed: u64, idx: u64, base: u64) -> Spec {
         if second.is_some() {
             ops.push(Op { kind: OpKind::Solve, slot: 0, goal: g, fault: None });
         }
+        if goals.len() <= 14 && rng.coin(50) {
+            let mut all = goals.clone();
+            rng.shuffle(&mut all);
+            for goal in all {
+                ops.push(Op { kind: OpKind::Solve, slot: rng.below(slots.len()), goal, fault: None });
+            }
+        }
         for _ in 0..rng.range(0, 4) {
             let goal = if rng.coin(40) { g } else { *rng.pick(&goals) };
             let k = rng.below(10);
@@ -58,7 +65,7 @@ pub fn gen(tier: &str, seed: u64, idx: u64, base: u64) -> Spec {
             ops.push(Op { kind, slot: rng.below(slots.len()), goal, fault: None });
         }
     }
-    let cap = if tier == "quick" { 48 } else { 2_000 };
+    let cap = if tier == "quick" { 48 } else { 800 };
     let db = DbCfg { perm_seed: None, superset: false, data_only_faults: rng.coin(25) };
     Spec { check: "C12".into(), world, slots, ops, db, budget: 400_000, points: None, scheds: None, cap, params: Default::default() }
 }
@@ -161,6 +168,29 @@ pub fn exec(spec: &Spec, r: &mut RunResult) {
                 }
                 r.bump("c12.later_ops_compared", 1);
                 if out != fresh {
+                    // control: the same history WITHOUT any injected panic (history dependence is C10's subject)
+                    let control = {
+                        let dbc = mk_db(&l, &spec.db);
+                        let mut sc = make_slots(&spec.slots);
+                        let mut last = None;
+                        for (ci, cop) in spec.ops.iter().enumerate().take(oi + 1) {
+                            let cg = match l.goals.get(cop.goal).and_then(|g| g.as_ref()) {
+                                Some(g) => g.clone(),
+                                None => continue,
+                            };
+                            let (o, _) = run_op(&mut sc[cop.slot], &dbc, &cg, &cop.kind, None, spec.budget);
+                            if ci == oi {
+                                last = Some(o);
+                            }
+                        }
+                        last
+                    };
+                    if control.as_ref() == Some(&out) {
+                        r.bump("c12.deviation_also_without_fault_attributed_to_history", 1);
+                        break;
+                    }
+                }
+                if out != fresh {
                     let class = if matches!(out, Out::Panic(_)) { "later-call-panics" } else { "later-differs-from-fresh" };
                     bad.push((
                         class.into(),
@@ -182,7 +212,7 @@ pub fn exec(spec: &Spec, r: &mut RunResult) {
             }
             for (class, detail) in bad {
                 if !r.violations.iter().any(|v| v.class == class) {
-                    r.violations.push(crate::run::Violation { class: class.clone(), detail, sig: Some(format!("{}:{}", cfg0.kind(), class)) });
+                    r.violations.push(crate::run::Violation { class: class.clone(), detail, sig: Some(format!("{}:{}{}", cfg0.kind(), class, static_tags(&spec.world, prim.goal))) });
                     if r.pin.is_none() {
                         r.pin = Some(serde_json::json!({ "points": [pt] }));
                     }
